@@ -123,6 +123,8 @@ func (d *dispatcher) ServeHTTP(w http.ResponseWriter, req *http.Request) {
 	location.Scheme = ep.Scheme
 	location.Host = ep.Host
 	location.Path = req.URL.Path
+	// keep the client's escaping (%2F, %3F, ...): the decoded path alone means something else to the upstream
+	location.RawPath = req.URL.RawPath
 	location.RawQuery = req.URL.Query().Encode()
 
 	newReq, cancel := newRequestForProxy(location, req, extraInfo.Hostname)
